@@ -163,6 +163,15 @@ def split_outputs(text):
             cur.append(ln)
     return res
 
+def _big_stack():
+    """the extracted list functions are not tail recursive: megabyte-long values need a deep native stack"""
+    import resource
+    soft, hard = resource.getrlimit(resource.RLIMIT_STACK)
+    want = 8 << 30
+    if hard != resource.RLIM_INFINITY: want = min(want, hard)
+    try: resource.setrlimit(resource.RLIMIT_STACK, (want, hard))
+    except Exception: pass
+
 def run_model(scenarios):
     """scenarios: list of lists of command lines.  Returns list of lists of output lines."""
     exe = model_driver()
@@ -174,7 +183,7 @@ def run_model(scenarios):
     procs = []
     for ch in chunks:
         d = "".join("reset\n" + "\n".join(s) + "\n" for s in ch).encode()
-        p = subprocess.Popen([exe], stdin=subprocess.PIPE, stdout=subprocess.PIPE, stderr=subprocess.PIPE)
+        p = subprocess.Popen([exe], stdin=subprocess.PIPE, stdout=subprocess.PIPE, stderr=subprocess.PIPE, preexec_fn=_big_stack)
         procs.append((p, d))
     results = []
     import threading
